@@ -59,7 +59,7 @@ ASSUMPTIONS = ['gcc -O0 -w x86-64 is "the compiler"; a gcc rejection of cdef-ind
                'declarations that mention a mutated item (by value or as array length) are not judged',
                'generated functions are pure formulas of their arguments']
 BUDGET = {'quick': 128, 'thorough': 6000}
-TIME = {'quick': 25, 'thorough': 840}
+TIME = {'quick': 20, 'thorough': 840}
 MIN_PER_SHARD = 8
 
 FEATURES = frozenset(cdefgen.DEFAULT_FEATURES | {'const_novalue'})
